@@ -563,6 +563,22 @@ def rule_keep_alive(ctx):
                         none_targets = [t["otherwise"]]
                 if none_targets and all(is_diverging(dn, bb) for bb in none_targets):
                     found = True
+        if not found:
+            # the same written with a combinator: `lock_result.expect(..)` / `.unwrap()` / `.unwrap_or_else(|| unreachable!(..))`
+            for bi2, t2 in dn.calls(lambda t: callee(t).rsplit("::", 1)[-1] in ("expect", "unwrap", "unwrap_or_else")):
+                a0 = dn.expr_of_operand(t2["args"][0])
+                if not any(x[0] == "call" and "lock" in str(x[1]).rsplit("::", 1)[-1] for x in walk(a0)):
+                    continue
+                seg = callee(t2).rsplit("::", 1)[-1]
+                if seg in ("expect", "unwrap"):
+                    found = True
+                else:
+                    clo = dn.expr_of_operand(t2["args"][1])
+                    cb = facts.body("nucleo", clo[1]) if clo[0] == "closure" else None
+                    if cb is not None:
+                        cf2 = fn_of(cb)
+                        if not cf2.returns or all(r_ not in cf2.reach_from(0) for r_ in cf2.returns):
+                            found = True          # the fallback closure never returns
         if found:
             ctx.ok(site(dn, lb), "a failed lock attempt does not fall through to dropping the fields")
         else:
